@@ -64,7 +64,13 @@ def gen_universe(rng, max_classes=5, max_objs=5, mixins=True, evs=None):
     for oid in range(rng.randint(1, max_objs)):
         c = rng.choice(handler_classes)
         objs[oid] = c
-        lines.append(f'obj {oid} class={c} hash={rng.randint(0, 3)}')
+        own = ''
+        if rng.random() < 0.12 and mapping_of[c]:
+            # this instance carries its own __events__ (a subset / another routing of its class's methods)
+            ms = sorted(set(mapping_of[c].values()))
+            ev = {e: rng.choice(ms) for e in rng.sample(EVS, rng.randint(1, min(2, len(EVS))))}
+            own = ' ev=' + ','.join(f'{k}:{v}' for k, v in ev.items())
+        lines.append(f'obj {oid} class={c} hash={rng.randint(0, 3)}{own}')
     return lines, objs, mapping_of
 
 
